@@ -61,6 +61,17 @@ def m_string_push(ex, callee, args, ret_ty, frame):
     return VUnit()
 
 
+def m_string_len(ex, callee, args, ret_ty, frame):
+    """String::len in bytes: exact for the ASCII strings these loops build (hex digits), refused otherwise"""
+    sq = models.deref(ex, args[0])
+    if not isinstance(sq, VSeq) or not isinstance(sq.length, int):
+        return models.NOT_HANDLED
+    for c in sq.items:
+        if not ex.prove(z3.ULT(c.bv, 128)) if hasattr(ex, "prove") else ex.solver.check(z3.Not(z3.ULT(c.bv, 128))) != z3.unsat:
+            raise engine.Unsupported("String::len of a string that may hold non-ASCII characters")
+    return VInt(z3.BitVecVal(sq.length, 64), False)
+
+
 def m_string_is_empty(ex, callee, args, ret_ty, frame):
     return VBool(len(chars_of(ex, args[0])) == 0)
 
@@ -262,7 +273,8 @@ TOK_CFG = dict(
     keep_uninterpreted=[],
     opaque_types=("HashMap", "CelBytes", "DateTime", "Duration", "Arc"),
     models=[
-        (r"^String::new$", m_string_new), (r"^String::push$", m_string_push), (r"^String::is_empty$", m_string_is_empty),
+        (r"^String::new$", m_string_new), (r"^String::with_capacity$", m_string_new), (r"^String::push$", m_string_push), (r"^String::is_empty$", m_string_is_empty),
+        (r"^String::len$", m_string_len),
         (r"^<str as (ToOwned|ToString)>::(to_owned|to_string)$|^<char as ToString>::to_string$", m_to_owned),
         (r"^<String as PartialEq<&str>>::eq$|^<str as PartialEq>::eq$|^<String as PartialEq<str>>::eq$", m_str_eq),
         (r"<impl str>::contains::<&str>$", m_contains), (r"<impl str>::trim_start_matches::<&str>$", m_trim_start),
@@ -631,7 +643,10 @@ def check_token(kind):
                 for ch in s:
                     nl = ch == C("\n")
                     line, col = z3.If(nl, line + 1, line), z3.If(nl, z3.BitVecVal(0, 64), col + 1)
-                V.check(ex, "token span covers exactly the literal", z3.And(st.fields[0].bv == 0, st.fields[1].bv == 0, en.fields[0].bv == line, en.fields[1].bv == col), assumed,
+                TPM = __import__("t_parse")
+                TPM.learn_loc_layout(ex)
+                il, ic = TPM.LOC_IDX["line"], TPM.LOC_IDX["col"]
+                V.check(ex, "token span covers exactly the literal", z3.And(st.fields[il].bv == 0, st.fields[ic].bv == 0, en.fields[il].bv == line, en.fields[ic].bv == col), assumed,
                         detail=lambda: f"span {loc!r} for {len(s)} characters", scenario=sc)
     return check
 
